@@ -1,3 +1,4 @@
+mod local;
 mod multi;
 mod rig;
 mod util;
@@ -12,6 +13,7 @@ fn main() {
     let rest: Vec<String> = args.iter().skip(2).cloned().collect();
     let code = match cmd {
         "multi" => multi::main(&rest),
+        "local" => local::main(&rest),
         _ => {
             eprintln!("usage: hsverif <multi|...> [key=value ...]");
             2
